@@ -24,7 +24,9 @@ impl<L: Language, N: Analysis<L>> EGraph<L, N> {
 
         #[cfg(feature = "explanations")]
         {
-            let enode = self.synify_enode(enode);
+            // Bound slots have to be unique among the syntactic e-nodes (as they are among the semantic ones):
+            // patterns re-use their bound slot names in every instantiation, and term-level substitution relies on unique names.
+            let enode = self.synify_enode(enode).refresh_private();
 
             self.add(enode.clone());
 
